@@ -195,4 +195,67 @@ theorem cdCoord_zero_below_threshold (contig : Bool) (eps thr denAdd : α) (st :
   rw [soft_threshold_zero _ _ _ h]
   simp [hj]
 
+/-! ### jointly in the intercept
+
+Full statement of the property (kept for reference, **false** of model and code, see the witness):
+  `∀ C y w' b', let (b, w, gap, _) := fitEnet … C y … true;`
+  `objective C y w b … − objective C y w' b' … ≤ gap`   (whenever the loop stopped on `gap < tol‖y‖²`).
+`fit` takes `b = mean y` and never centres the columns.  Proved: the statement under the extra
+hypothesis that every column has zero sum (`_partial`); the negation on a concrete un-centred input. -/
+
+/-- on **centred** columns the pair `(w, mean y)` computed by `fit` is within the duality gap of *every*
+`(w', b')` — jointly in coefficients and intercept -/
+theorem fit_joint_optimal_centred_partial (contig : Bool) (C : List (List α)) (y w w' : List α)
+    (b' l1r pen n : α) (hC : ∀ c ∈ C, c.length = y.length) (hw : w.length = C.length)
+    (hw' : w'.length = C.length) (h0 : 0 ≤ l1r) (h1 : l1r ≤ 1) (hpen : 0 ≤ pen) (hn : 0 ≤ n)
+    (hy : 0 < y.length) (hcen : ∀ c ∈ C, sumS c = 0) :
+    objective C y w (computeIntercept true y (y.length : α)).1 l1r pen n - objective C y w' b' l1r pen n
+      ≤ dualityGap contig C (computeIntercept true y (y.length : α)).2 w
+          (residual C (computeIntercept true y (y.length : α)).2 w 0) l1r pen n := by
+  simp only [computeIntercept, if_true, sumS_eq] at *
+  set m := y.sum / (y.length : α) with hm
+  set yc := y.map (· - m) with hyc
+  have hycl : yc.length = y.length := by simp [hyc]
+  have hC' : ∀ c ∈ C, c.length = yc.length := fun c hc => by rw [hycl]; exact hC c hc
+  have key := gap_bounds_suboptimality contig C yc w w' l1r pen n hC' hw hw' h0 h1 hpen hn
+  have hnpos : (0 : α) < (y.length : α) := by exact_mod_cast hy
+  -- (i) at `b = m` the objective is the centred one
+  have e1 : objective C y w m l1r pen n = objective C yc w 0 l1r pen n := by
+    simp only [objective]
+    rw [residual_centre C y w m m, ← hyc]; simp
+  -- (ii) any other intercept only adds `n·(b' − m)²/2`
+  have e2 : objective C yc w' 0 l1r pen n ≤ objective C y w' b' l1r pen n := by
+    simp only [objective, dotS_eq]
+    rw [residual_centre C y w' m b', ← hyc]
+    generalize hv : residual C yc w' 0 = v
+    have hvs : v.sum = 0 := by
+      rw [← hv]; unfold residual
+      rw [sum_residual 0 yc _ (by rw [matVec_length _ _ _ hC']), sum_matVec_centred _ C w' hC' hcen, hyc,
+        sum_map_sub, hm]
+      field_simp; ring
+    have hsh := sum_sq_shift v (b' - m) 0
+    rw [hvs] at hsh
+    have hv0 : v.map (· - (0 : α)) = v := by simp
+    rw [hv0] at hsh
+    have : 0 ≤ (v.length : α) * (0 - (b' - m)) ^ 2 := mul_nonneg (Nat.cast_nonneg _) (sq_nonneg _)
+    rw [hsh, half_eq]; nlinarith
+  rw [e1]; linarith
+
+example : objective (α := ℚ) [[-1, 0, 1]] [1, 2, 6] [5 / 2] (computeIntercept true [1, 2, 6] ((3 : ℕ) : ℚ)).1 (1 / 2) 0 3
+      - objective [[-1, 0, 1]] [1, 2, 6] [1] 7 (1 / 2) 0 3
+    ≤ dualityGap false [[-1, 0, 1]] (computeIntercept true [1, 2, 6] ((3 : ℕ) : ℚ)).2 [5 / 2]
+        (residual [[-1, 0, 1]] (computeIntercept true [1, 2, 6] ((3 : ℕ) : ℚ)).2 [5 / 2] 0) (1 / 2) 0 3 :=
+  fit_joint_optimal_centred_partial false [[-1, 0, 1]] [1, 2, 6] [5 / 2] [1] 7 (1 / 2) 0 3 (by simp) (by simp)
+    (by simp) (by norm_num) (by norm_num) (by norm_num) (by norm_num) (by simp) (by simp [sumS])
+
+/-- **the full statement fails on un-centred features** (open finding `C11-enet-intercept-not-joint`):
+on `x = (1,2,3)`, `y = (1,2,3)`, penalty 0, the model of `fit` (run in exact rational arithmetic)
+stops after 2 sweeps with `b = 2`, `w = 1/7` and reports gap `0`, while `(w', b') = (1, 0)` has an
+objective lower by `6/7`.  The same input is replayed on the real code by the harness. -/
+theorem fit_intercept_not_joint_witness :
+    fitEnet (α := ℚ) true 0 [[1, 2, 3]] [1, 2, 3] 3 (1 / 10000) 10 (1 / 2) 0 true = (2, [1 / 7], 0, 2) ∧
+      (0 : ℚ) < objective [[1, 2, 3]] [1, 2, 3] [1 / 7] 2 (1 / 2) 0 3
+        - objective [[1, 2, 3]] [1, 2, 3] [1] 0 (1 / 2) 0 3 := by
+  decide +kernel
+
 end LinfaSpec.Props.C11
